@@ -20,8 +20,15 @@ SPEC = dict(module='props.c13', devs=['6502', '65C02', '65Org16'], opcodes=_opco
             n_quick=60, n_thorough=2000, decimal=True)
 
 
+# the property also quantifies over step/irq/nmi histories: the counter after an interleaving of step(), irq(),
+# nmi() and reset() (what one call adds must not depend on what ran before it, e.g. a stale extra-cycle flag)
+SPEC_HIST = dict(module='props.c13:SPEC_HIST', devs=['6502', '65C02', '65Org16'], opcodes=_opcodes, aspects={'cyc'},
+                 mode='history', n_quick=25, n_thorough=800, decimal=False)
+
+
 def explore(ctx):
     cpu_props.explore(ctx, SPEC)
+    cpu_props.explore(ctx, SPEC_HIST)
 
 
 def replay(ctx, path):
